@@ -33,6 +33,10 @@ claim("C11", "Two real stream stacks of each kind the tool builds (AKAI windows 
       "schedules (streams, shared parent view, raw handle) and by the real stereo transcoder's alternating reads.",
       XT + "; inductive step over arbitrary shared-cursor states", "DESIGN.md 2/C11")
 
+claim("C18", "Character maps (all 256 bytes each way, and names composed per character), note numbers (all bytes, AKAI and MIDI bases) and note text "
+      "(7x2x10) are executed symbolically against an independently transcribed table; the tuning byte <-> cents codec is executed on a symbolic signed "
+      "byte with IEEE-754 double semantics (QF_BVFP) and z3 shows build(parse(b)) == b.", XT + "; symx QF_BVFP for the float codec", "DESIGN.md 2/C18")
+
 _pending = "check not built yet in this session (work in progress; see DESIGN.md section 2 for the planned obligations)"
 for _p in ["C01","C02","C03","C04","C05","C06","C07","C09","C10","C11","C12","C13","C14","C15","C16","C17","C18","C19","C20"]:
     if _p not in CHECKS:
